@@ -135,9 +135,44 @@ func nameStr(n enc.Name) string {
 
 // runStores is the parent-side extra pass. Returns coverage.
 func runStores(rep *report.Reporter, thorough bool, deadline time.Time) map[string]any {
-	u := mkUniverse(thorough)
 	defer debug.SetGCPercent(debug.SetGCPercent(800)) // bolt allocates page buffers per transaction
-	depth := 4
+	txDepth := 4
+	if !thorough {
+		txDepth = 3 // quick tier: transaction mode to depth 3
+	}
+	// version boundaries first (small): every Put/Remove history of depth <= 3 over one packet per
+	// version in {0, 1, 2^31, 2^32, 2^63-1, 2^63, 2^64-2, 2^64-1}
+	vb := enumStores(rep, mkBoundaryUniverse(), 3, 3, deadline)
+	cov := enumStores(rep, mkUniverse(thorough), 4, txDepth, deadline)
+	cov["version_boundaries"] = vb
+	if e, _ := vb["exhaustive"].(bool); !e {
+		cov["exhaustive"] = false
+	}
+	return cov
+}
+
+var boundaryVersions = []uint64{0, 1, 1 << 31, 1 << 32, 1<<63 - 1, 1 << 63, 1<<64 - 2, 1<<64 - 1}
+
+func mkBoundaryUniverse() *sUniverse {
+	u := &sUniverse{}
+	obj := mkName("/a", 0)
+	for _, v := range boundaryVersions {
+		n := append(obj.Clone(), enc.NewVersionComponent(v), enc.NewSegmentComponent(0))
+		pk := &sPkt{name: n, s: n.String(), ver: v}
+		u.pkts = append(u.pkts, pk)
+		u.ops = append(u.ops, sOp{label: "Put(" + pk.s + ")", put: pk})
+	}
+	for _, p := range u.pkts {
+		u.ops = append(u.ops, sOp{label: "Remove(" + p.s + ")", rem: p.name})
+	}
+	u.queries = []enc.Name{{}, obj}
+	for _, p := range u.pkts {
+		u.queries = append(u.queries, p.name[:2], p.name)
+	}
+	return u
+}
+
+func enumStores(rep *report.Reporter, u *sUniverse, depth, txDepth int, deadline time.Time) map[string]any {
 	nops := int64(len(u.ops))
 	var total int64
 	pow := int64(1)
@@ -149,10 +184,6 @@ func runStores(rep *report.Reporter, thorough bool, deadline time.Time) map[stri
 	}
 	// index space: [0,total) direct Puts, [total, total+totalTx) every Put inside Begin..Commit
 	// (quick tier: transaction mode to depth 3)
-	txDepth := depth
-	if !thorough {
-		txDepth = 3
-	}
 	totalTx := total
 	if txDepth < depth {
 		totalTx = offs[txDepth]
